@@ -1,6 +1,8 @@
 package cluster
 
 import (
+	"sync"
+
 	"github.com/semafind/semadb/diskstore"
 	"github.com/semafind/semadb/models"
 )
@@ -178,4 +180,32 @@ func VerifTenantIsolation() {
 		}
 	}
 	vassert("a-list-is-exactly-a-collections", len(aList) == nA)
+}
+
+// C15(3): the per-user collection quota holds under concurrent creations: two requests of one
+// user at the quota boundary (limit 1, or limit 2 with one collection present) - at most
+// `limit` collections exist afterwards and exactly the surplus request is refused.
+func VerifConcurrentCollectionQuota() {
+	c := tenantNode()
+	limit := nondetIntRange(1, 2)
+	if limit == 2 {
+		ex, q, err := c.verifCreate("u", "c0", limit)
+		vassume(err == nil && !ex && !q)
+	}
+	var wg sync.WaitGroup
+	refused := make([]bool, 2)
+	names := []string{"c1", "c2"}
+	for i := 0; i < 2; i++ {
+		wg.Add(1)
+		go func(i int) {
+			defer wg.Done()
+			_, q, err := c.verifCreate("u", names[i], limit)
+			vassert("create-returns", err == nil)
+			refused[i] = q
+		}(i)
+	}
+	wg.Wait()
+	vcover("reached")
+	vassert("collection-quota-never-exceeded", len(c.verifList("u")) <= limit)
+	vassert("exactly-one-request-is-refused", refused[0] != refused[1])
 }
